@@ -100,7 +100,7 @@ def build(eng, shape):
                 lit(", ")
                 fks.append(hole())
                 lit(" = {v%d}" % i)
-            lit("}")
+            lit("}")     # an entry without fields is written '@x{K}' (no comma)
             spec.append(("entry", k, fks))
         elif sh[0] == "string":
             lit("@string{")
@@ -213,7 +213,7 @@ def task(shape, label):
 def main():
     chk = Check("C09", __doc__)
     nmax = 3 if chk.tier == "quick" else 4
-    kinds = [("entry", 1), ("entry", 2), ("entry", 3), ("string",), ("comment",)]
+    kinds = [("entry", 0), ("entry", 1), ("entry", 2), ("entry", 3), ("string",), ("comment",)]
     shapes = []
     for n in range(2, nmax + 1):
         for sh in itertools.product(kinds, repeat=n):
@@ -222,7 +222,7 @@ def main():
             if n == 4 and sum(1 for s in sh if s[0] == "comment") > 1:
                 continue
             shapes.append(list(sh))
-    chk.bounds = {"documents": f"{len(shapes)} shapes: every sequence of 2..{nmax} blocks from entry(1..3 fields) / @string / @comment",
+    chk.bounds = {"documents": f"{len(shapes)} shapes: every sequence of 2..{nmax} blocks from entry(0..3 fields) / @string / @comment",
                   "keys": "every entry key, string key and field key is one symbolic character over {a,b} (all collision patterns)"}
     chk.assumptions = ["keys longer than one character and more than the stated number of blocks/fields are outside the claim (collision detection compares whole keys; the pattern space is what matters)",
                        "values are fixed brace-enclosed literals"]
